@@ -10,8 +10,10 @@ Objects live behind handles; the library-global state is exactly
 
 The actual computations are parameters of the model (`Params`): arbitrary functions that receive, as
 explicit arguments, every global they read.  The model fixes *where* globals are written and read and
-*which blocks* every call allocates and frees (the ledger), following the C text (bugs included:
-`readerFail` below is the error path of `kalign_read_input` that does not free its `in_buffer`).
+*which blocks* every call allocates and frees (the ledger), following the C text (bugs included — at
+present none is known on the allocation side: the two leaks the ledger exposed, the `ERROR:` path of
+`kalign_read_input` and the failing `fopen` in `read_file_stdin`, were repaired in /repo by 4036b80,
+7d4bd68 and 4c3a0a7 and the model follows the repaired text).
 
 Worlds are passed explicitly (no monad) so that each read of a global is visible as `w.g.…`.
 -/
@@ -40,15 +42,24 @@ def World.setThreads (w : World) (n : Nat) : World := { w with g := { w.g with o
 /-- `set_broadcast_mask()` -/
 def World.setMask (w : World) : World := { w with g := { w.g with maskInit := true } }
 
-/-- result of reading one file (`kalign_read_input`, msa_io.c:80) -/
+/-- what one call `kalign_read_input(file, &msa, quiet)` (msa_io.c:80) meets -/
 inductive FileResult (Msa : Type) where
-  /-- sequences were read -/
+  /-- a format reader and the detectors succeeded: `m` holds the sequences of this input -/
   | seqs (m : Msa)
-  /-- empty input or undetectable format: returns OK, `*msa` untouched, buffer freed -/
+  /-- empty input or undetectable format: returns OK, `*msa` untouched, buffer and timer freed -/
   | nothing
-  /-- `read_fasta/read_msf/read_clu/detect_alphabet/detect_aligned/set_sip_nsip` failed: jumps to
-  `ERROR:` which frees the partial msa but **not** the `in_buffer` -/
+  /-- `read_fasta/read_msf/read_clu` failed: the reader frees the msa it was building itself, `m` stays NULL;
+  `ERROR:` frees the timer and the `in_buffer` -/
   | readerFail
+  /-- the reader succeeded but `detect_alphabet/detect_aligned/set_sip_nsip` failed: `ERROR:` frees the
+  timer, the `in_buffer` and `m` -/
+  | detectFail
+  /-- `my_file_exists` fails: `ERROR:` before any buffer exists; only the timer is destroyed -/
+  | missing
+  /-- the file exists but `fopen` fails inside `read_file_stdin` (EACCES, EMFILE, …): the `in_buffer` it
+  allocated into its local is freed on its own `ERROR:` path (`if(b && !*buffer) free_in_buffer(b)`); the
+  caller's `b` stays NULL and its `ERROR:` path destroys the timer -/
+  | openFail
 
 /-- the pure computations (parameters of the model) -/
 structure Params where
@@ -64,10 +75,11 @@ structure Params where
   Tasks : Type
   Ap : Type
   parseFile : File → FileResult Msa
-  /-- `merge_msa` -/
-  mergeMsa : Msa → Msa → Msa
-  /-- `check_for_sequences`: at least two sequences -/
-  enough : Msa → Bool
+  /-- `merge_msa(dest, src)`: new content of `dest` and OK/FAIL (different alphabets, or a detector fails
+  after the sequences were moved) -/
+  mergeMsa : Msa → Msa → Msa × Bool
+  /-- `check_for_sequences`: at least one sequence (`kalign_run` insists on two: part of `prepare`) -/
+  nonEmpty : Msa → Bool
   /-- requested thread count -/
   threads : Cfg → Nat
   /-- `kalign_essential_input_check`, `dealign_msa`, `msa_sort_len_name`, `convert_msa_to_internal`
@@ -216,27 +228,51 @@ inductive ReadOutcome where
   | done (acc : Option P.Msa)
   | failed
 
-/-- the loop `for each file: kalign_read_input(file, &msa, quiet)`; `h` is the handle the msa will get.
-On FAIL the caller frees what it holds (run_kalign.c does). -/
-def readFiles (h : Nat) : List P.File → Option P.Msa → World → ReadOutcome P × World
-  | [], acc, w => (.done acc, w)
-  | f :: fs, acc, w =>
+/-- one call `kalign_read_input(f, &msa, quiet)` where `*msa` is `cur`, held under handle `h`.
+Returns OK/FAIL and the new `*msa`.  Blocks: the stopwatch, the line buffer, the msa `m` of this input
+(which *becomes* the object when `*msa` was NULL). -/
+def readInput (h : Nat) (f : P.File) (cur : Option P.Msa) (w : World) : (Bool × Option P.Msa) × World :=
+  let w := w.alloc (.tmp "timer")                                    -- DECLARE_TIMER
+  match P.parseFile f with
+  | .missing => ((false, cur), w.free (.tmp "timer"))                 -- ERROR: b = NULL, m = NULL
+  | .openFail =>
+    -- read_file_stdin: alloc_in_buffer(&b), fopen fails, ERROR: free_in_buffer(b) (not yet handed over)
+    let w := (w.alloc (.tmp "in_buffer")).free (.tmp "in_buffer")
+    ((false, cur), w.free (.tmp "timer"))                             -- caller's ERROR: b = NULL, m = NULL
+  | .nothing =>
     let w := w.alloc (.tmp "in_buffer")
-    match P.parseFile f with
-    | .readerFail =>
-      -- ERROR: the partial msa is freed, the in_buffer is not
-      (.failed, match acc with | some _ => w.free (.obj h) | none => w)
-    | .nothing => readFiles h fs acc (w.free (.tmp "in_buffer"))
-    | .seqs m =>
-      match acc with
-      | none =>
-        let w := (w.alloc (.obj h)).free (.tmp "in_buffer")
-        if P.enough m then readFiles h fs (some m) w else (.failed, w.free (.obj h))
-      | some a =>
-        let w := (w.alloc (.tmp "msa")).free (.tmp "in_buffer")
-        let a' := P.mergeMsa a m
-        let w := w.free (.tmp "msa")
-        if P.enough a' then readFiles h fs (some a') w else (.failed, w.free (.obj h))
+    ((true, cur), (w.free (.tmp "timer")).free (.tmp "in_buffer"))   -- `return OK`, *msa untouched
+  | .readerFail =>
+    let w := w.alloc (.tmp "in_buffer")
+    let w := (w.alloc (.tmp "m")).free (.tmp "m")                     -- the reader frees its own msa
+    ((false, cur), (w.free (.tmp "timer")).free (.tmp "in_buffer"))  -- ERROR: b freed, m = NULL
+  | .detectFail =>
+    let w := (w.alloc (.tmp "in_buffer")).alloc (.tmp "m")
+    ((false, cur), ((w.free (.tmp "timer")).free (.tmp "in_buffer")).free (.tmp "m"))  -- ERROR: b and m freed
+  | .seqs m =>
+    match cur with
+    | none =>
+      -- `*msa = m`
+      let w := ((w.alloc (.tmp "in_buffer")).alloc (.obj h)).free (.tmp "in_buffer")
+      if P.nonEmpty m then ((true, some m), w.free (.tmp "timer"))
+      else ((false, none), (w.free (.tmp "timer")).free (.obj h))     -- ERROR: *msa == m: *msa = NULL, m freed
+    | some a =>
+      let w := ((w.alloc (.tmp "in_buffer")).alloc (.tmp "m")).free (.tmp "in_buffer")
+      let (a', ok) := P.mergeMsa a m
+      if !ok then ((false, some a'), (w.free (.tmp "timer")).free (.tmp "m"))   -- ERROR: m freed, *msa stays
+      else
+        let w := w.free (.tmp "m")                                    -- kalign_free_msa(m); m = NULL
+        if P.nonEmpty a' then ((true, some a'), w.free (.tmp "timer"))
+        else ((false, some a'), w.free (.tmp "timer"))                -- ERROR: m = NULL, *msa stays
+
+/-- the caller's loop `for each file: rc = kalign_read_input(file, &msa, quiet)` (run_kalign.c, harness
+`h_read`); on FAIL it stops and frees what it holds -/
+def readFiles (h : Nat) : List P.File → Option P.Msa → World → ReadOutcome P × World
+  | [], cur, w => (.done cur, w)
+  | f :: fs, cur, w =>
+    match readInput P h f cur w with
+    | ((true, cur'), w) => readFiles h fs cur' w
+    | ((false, cur'), w) => (.failed, match cur' with | some _ => w.free (.obj h) | none => w)
 
 /-! ## one step -/
 
@@ -310,10 +346,5 @@ def freshWith (g0 : Globals) (s : State P) (hs : List Nat) : State P :=
   { w := { g := g0, ledger := [] }
     heap := s.heap.filter fun e => hs.contains e.1
     next := s.next }
-
-/-- no operation of the history reads a file on which a format reader fails -/
-def Op.clean {P : Params} : Op P → Bool
-  | .read files => !(files.any fun f => match P.parseFile f with | .readerFail => true | _ => false)
-  | _ => true
 
 end Kalign.Api
